@@ -74,6 +74,11 @@ def gen_spec(rng, fmt=None, max_elements=5, max_shells=8, max_l=7, max_prims=10,
     nel = rng.randint(1, max_elements)
     pool = SYMBOLS_1 + SYMBOLS_2
     syms = rng.sample(pool, nel)
+    case = rng.choice(["as_is"] * 8 + ["upper", "lower"])  # NWChem tags / Gaussian94 centres in another letter case
+    if case == "upper":
+        syms = [x.upper() for x in syms]
+    elif case == "lower":
+        syms = [x.lower() for x in syms]
     style_mode = rng.choice(["mixed", "plain", "E", "D", "bse", "Dbse", "odd", "mixed"])
     elements = []
     for sym in syms:
@@ -271,6 +276,33 @@ def render(spec):
     if tr == "nl":
         text += "\n"
     return text
+
+
+def tweak_same_length(spec, d):
+    """A revision of the file with exactly the same length: one digit of one coefficient token is changed."""
+    import copy
+
+    ns = copy.deepcopy(spec)
+    toks = []
+    for ei, el in enumerate(ns["elements"]):
+        for si, sh in enumerate(el["shells"]):
+            for ci, col in enumerate(sh["cols"]):
+                for ki in range(len(col)):
+                    toks.append((ei, si, ci, ki))
+    if not toks:
+        return None
+    for off in range(len(toks)):
+        ei, si, ci, ki = toks[(d + off) % len(toks)]
+        tok = ns["elements"][ei]["shells"][si]["cols"][ci][ki]
+        mant_end = max(tok.find("E"), tok.find("D"))
+        mant = tok if mant_end < 0 else tok[:mant_end]
+        for pos in range(len(mant) - 1, -1, -1):
+            if mant[pos].isdigit():
+                new = tok[:pos] + str((int(mant[pos]) + 1 + d % 8) % 10) + tok[pos + 1:]
+                if _tok_value(new) != _tok_value(tok):
+                    ns["elements"][ei]["shells"][si]["cols"][ci][ki] = new
+                    return ns
+    return None
 
 
 def respell(tok):
